@@ -699,7 +699,7 @@ func c20RunCase(sp c20Spec) (res c20CaseResult) {
 					if !strings.Contains(g.Frames, "prom.(*Metrics).Observe") {
 						continue
 					}
-					if parkedState(g.State) {
+					if parkedG(g) {
 						parked++
 					} else {
 						running++
